@@ -891,38 +891,48 @@ func (self *PathNode) should2(op string, t thrift.Type, t2 thrift.Type) *PathNod
 	return nil
 }
 
+// NOTICE: probing must wrap the slot pointer together with the index h,
+// and must stop after N slots (the table may be full of other keys after Set).
 func getStrHash(next *[]PathNode, key string, N int) *PathNode {
+	base := *(*unsafe.Pointer)(unsafe.Pointer(next))
 	h := int(caching.StrHash(key) % uint64(N))
-	s := (*PathNode)(rt.IndexPtr(*(*unsafe.Pointer)(unsafe.Pointer(next)), sizePathNode, h))
-	for s.Path.t == PathStrKey {
+	for i := 0; i < N; i++ {
+		s := (*PathNode)(rt.IndexPtr(base, sizePathNode, h))
+		if s.Path.t != PathStrKey {
+			return nil
+		}
 		if s.Path.str() == key {
 			return s
 		}
 		h = (h + 1) % N
-		s = (*PathNode)(unsafe.Pointer(uintptr(unsafe.Pointer(s)) + sizePathNode))
 	}
 	return nil
 }
 
 func seekIntHash(next unsafe.Pointer, key uint64, N int) int {
 	h := int(key % uint64(N))
-	s := (*PathNode)(rt.IndexPtr(next, sizePathNode, h))
-	for s.Path.t != 0 {
+	for i := 0; i < N; i++ {
+		s := (*PathNode)(rt.IndexPtr(next, sizePathNode, h))
+		if s.Path.t == 0 {
+			break
+		}
 		h = (h + 1) % N
-		s = (*PathNode)(rt.AddPtr(unsafe.Pointer(s), sizePathNode))
 	}
 	return h
 }
 
 func getIntHash(next *[]PathNode, key uint64, N int) *PathNode {
+	base := *(*unsafe.Pointer)(unsafe.Pointer(next))
 	h := int(key % uint64(N))
-	s := (*PathNode)(rt.IndexPtr(*(*unsafe.Pointer)(unsafe.Pointer(next)), sizePathNode, h))
-	for s.Path.t == PathIntKey {
+	for i := 0; i < N; i++ {
+		s := (*PathNode)(rt.IndexPtr(base, sizePathNode, h))
+		if s.Path.t != PathIntKey {
+			return nil
+		}
 		if uint64(s.Path.int()) == key {
 			return s
 		}
 		h = (h + 1) % N
-		s = (*PathNode)(rt.AddPtr(unsafe.Pointer(s), sizePathNode))
 	}
 	return nil
 }
@@ -943,7 +953,7 @@ func (self *PathNode) GetByStr(key string, opts *Options) *PathNode {
 		n, _ := self.Node.len()
 		N := n * 2
 		// TODO: cap may change after Set. Use better way to store hash size
-		if cap(self.Next) >= N {
+		if N > 0 && cap(self.Next) >= N {
 			if s := getStrHash(&self.Next, key, N); s != nil {
 				return s
 			}
@@ -976,7 +986,7 @@ func (self *PathNode) SetByStr(key string, val Node, opts *Options) (bool, error
 		n, _ := self.Node.len()
 		N := n * 2
 		// TODO: cap may change after Set. Use better way to store hash size
-		if cap(self.Next) >= N {
+		if N > 0 && cap(self.Next) >= N {
 			if s := getStrHash(&self.Next, key, N); s != nil {
 				s.Node = val
 				return true, nil
@@ -1014,7 +1024,7 @@ func (self *PathNode) GetByInt(key int, opts *Options) *PathNode {
 		// TODO: size may change after Set. Use better way to store hash size
 		n, _ := self.Node.len()
 		N := n * 2
-		if cap(self.Next) >= N {
+		if N > 0 && cap(self.Next) >= N {
 			if s := getIntHash(&self.Next, uint64(key), N); s != nil {
 				return s
 			}
@@ -1046,7 +1056,7 @@ func (self *PathNode) SetByInt(key int, val Node, opts *Options) (bool, error) {
 	if opts.StoreChildrenByHash {
 		n, _ := self.Node.len()
 		N := n * 2
-		if cap(self.Next) >= N {
+		if N > 0 && cap(self.Next) >= N {
 			if s := getIntHash(&self.Next, uint64(key), N); s != nil {
 				s.Node = val
 				return true, nil
